@@ -396,7 +396,10 @@ class SigmaCollection:
             elif isinstance(i, str):  # Index by UUID or name
                 try:  # Try UUID first
                     return self.ids_to_rules[UUID(i)]
-                except ValueError:  # Try name if UUID fails
+                except (
+                    ValueError,
+                    KeyError,
+                ):  # Try name if it is no UUID, or no identifier of a rule (names may look like one)
                     return self.names_to_rules[i]
         except IndexError:
             raise SigmaRuleNotFoundError(f"Rule at position { i } not found in rule collection")
